@@ -6,7 +6,7 @@
     every reachable state (C08_wf_reachable). *)
 From Coq Require Import List ZArith NArith Bool.
 From Kardia Require Import C08.Model C08.ProofsEqv C08.ProofsInv C08.ProofsUndo C08.ProofsRevert C08.Proofs C08.ProofsCoh.
-From Kardia Require Import C08.ModelSnap C08.ModelSnapHeap C08.ProofsSnap C08.ProofsSnapDB.
+From Kardia Require Import C08.ModelSnap C08.ModelSnapHeap C08.ProofsSnap C08.ProofsSnapDB C08.ProofsSnapBridge.
 Import ListNotations.
 Local Open Scope N_scope.
 
@@ -234,3 +234,27 @@ Example C08_snapdata_revert_exact_example :
   is_some (ss_acc ssN 1) = false /\ ss_sto ssN 1 0 = None.
 Proof. exact sexample_valid. Qed.
 Print Assumptions C08_snapdata_revert_exact_example.
+
+(** ------------------------------------------------------------------------------------------------
+    From the StateDB to the snapshot tree.  [Sync base ss] (ProofsSnapBridge.v): every address either
+    agrees between the account trie and the snapshot data laid over [base] (the content of the layer
+    the StateDB is attached to), or has had its snapshot data cleared and is due to be rewritten by the
+    next Finalise; live objects' storage roots agree with the flat storage; deleted objects have no
+    snapshot data; pending addresses have objects; objects that are neither pending nor journal-dirty
+    have nothing to flush. *)
+
+(** PARTIAL (the hypothesis [Sync] is proved for a freshly opened StateDB only, see Open.v): what Commit
+    hands to Tree.Update (stateObjectsDestruct, snapAccounts, snapStorage), laid over the parent
+    layer's content, is the committed content — every account, and every slot of the flat storage
+    (nothing dangling under absent accounts) *)
+Theorem C08_snapshot_handover_partial : forall base ss de p, Sync base ss -> ss_snap ss = Some p ->
+  exists ss' h, scommit de ss = (ss', snd (commit de (ss_st ss)), Some h) /\ ho_parent h = p /\
+    forall a, over_acc1 (handover_layer h) base a = snd (commit de (ss_st ss)) a /\
+              forall k, over_sto1 (handover_layer h) (flat base) a k = flat (snd (commit de (ss_st ss))) a k.
+Proof. exact handover_content. Qed.
+Print Assumptions C08_snapshot_handover_partial.
+
+(** the hypothesis is satisfiable: a StateDB just opened on the layer's root *)
+Theorem C08_sync_new : forall base l, Sync base (snew_state base l).
+Proof. exact sync_new. Qed.
+Print Assumptions C08_sync_new.
